@@ -38,6 +38,13 @@ Parts (all deciding steps are complete enumerations of the stated spaces):
      methods, whose files parse in milliseconds; thorough: all pairs of the corpus and all ordered triples of
      distinct methods of a 15-method sub-corpus).  A fingerprint of all androguard.decompiler module/class
      state is taken after every history (canonical state; shows whether in-process histories start pristine).
+     extreme sizes (both tiers, exact histories): four generated methods where size-gated code lives - A1/A2 with
+     ~2600 / ~1300 basic blocks, B1/B2 one block with a 2560 / 1200 deep expression - every ordered pair of them and
+     each before/after three ordinary methods.
+     interpreter-global state (recursion limit, switch interval, warnings.filters, gc enabled, locale, cwd,
+     os.environ) is compared with pristine after every step of every history: a decompilation that leaves it
+     changed makes later output depend on history -> reported as history:global-state:<which> even if no text
+     differs yet.
 Oracle: byte-identical DvMethod.get_source() / DvClass.get_source() (statement of C22).  A method that raises
 is compared by exception type + message.  replay() runs the witness in two fresh child processes and demands
 the same difference from both.
@@ -91,6 +98,7 @@ DEXES = ["Test.dex", "AnalysisTest.dex", "ExceptionHandling.dex", "FillArrays.de
 HIST_DEXES = DEXES[:8]            # history corpus is drawn from the small files and classes.dex
 GEN = "generated"                 # generated corpus: C21's structured tier-C programs + the nested-loop family
 CORPORA = DEXES + [GEN]
+XT = "extreme"                    # four extreme-size generated methods; history part only
 M24 = (1 << 24) - 1
 T_MAX_QUICK = 16                  # quick: transpositions for methods with <= this many hashed objects
 T_MAX_THOROUGH = 48
@@ -361,9 +369,44 @@ def gen_dex():
     return _GEN["dex"]
 
 
+EXTREME = [("a1_blocks2600", "gotos", 2600), ("a2_blocks1300", "gotos", 1300),
+           ("b1_expr2560", "deep", 2560), ("b2_expr1200", "deep", 1200)]
+
+
+def gen_extreme_dex():
+    """A1/A2: ~2600 / ~1300 basic blocks (a chain of goto +1: deep graph traversals; above / below the size at which
+    2*blocks exceeds the recursion limit of 5000 set by androguard.decompiler);  B1/B2: one basic block whose return
+    expression nests 2560 / 1200 additions (the same register is reused, so propagation folds it into ONE expression:
+    deep recursion in dataflow and writer, 2 frames per level: 2560 is ~65 levels above what fits into the limit of
+    5000, so on its own it ends in RecursionError, and it completes as soon as anything raised the limit by ~150)."""
+    if "xt" not in _GEN:
+        from gen import dalvik as D
+        from gen import dexgen as G
+        ms = []
+        for name, kind, n in EXTREME:
+            s = D.Asm()
+            if kind == "gotos":
+                for _ in range(n):
+                    L = D.Label()
+                    s.ins("goto", L)
+                    s.label(L)
+                s.ins("return", 1)
+            else:
+                s.ins("add-int/lit8", 0, 1, 1)
+                for _ in range(n - 1):
+                    s.ins("add-int/lit8", 0, 0, 1)
+                s.ins("return", 0)
+            ms.append(G.Method(name, "I", ("I",), G.ACC_PUBLIC | G.ACC_STATIC,
+                               G.Code(registers=2, ins=1, outs=0, insns=s.assemble()[0])))
+        _GEN["xt"] = G.build(G.Dex([G.Class("Lgen/Extreme;", dmethods=ms)]))
+    return _GEN["xt"]
+
+
 def raw_bytes(repo, name):
     if name == GEN:
         return gen_dex()
+    if name == XT:
+        return gen_extreme_dex()
     path = os.path.join(repo, "tests", "data", "APK", name)
     if name.endswith(".apk"):
         with zipfile.ZipFile(path) as z:
@@ -427,6 +470,8 @@ _ADDR = re.compile(r"0x[0-9a-fA-F]{6,}")
 
 
 def _exc_text(e):
+    if isinstance(e, RecursionError):         # the message depends on where the limit was hit: class only
+        return "EXC:RecursionError"
     return "EXC:%s:%s" % (type(e).__name__, _ADDR.sub("0x?", str(e)))
 
 
@@ -494,6 +539,7 @@ _DECL = re.compile(r"^[\w.$<>\[\]]+ v\w+;$")
 def small_diff(a, b, limit=14):
     import difflib
     d = [l for l in difflib.unified_diff(a.split("\n"), b.split("\n"), "baseline", "variant", lineterm="", n=1)]
+    d = [l if len(l) <= 200 else l[:200] + " ...[%d chars]" % len(l) for l in d]
     return "\n".join(d[:limit] + (["..."] if len(d) > limit else []))
 
 
@@ -581,6 +627,13 @@ def eval_witness(repo, w):
         ct, mt = run_class(dx, c)
         i = w.get("method")
         return {"a": ct if i is None else mt[i], "mid": str(c.get_name())}
+    if kind == "histstate":
+        s0 = interp_state()
+        for (name, ci, mi) in w["seq"]:
+            d, dx, _ = _hist_load(repo, name)
+            run_method(dx, d.get_classes()[ci].get_methods()[mi])
+        s1 = interp_state()
+        return {"a": json.dumps(s0[w["which"]]), "b": json.dumps(s1[w["which"]]), "mid": "%s:%d:%d" % tuple(w["seq"][-1])}
     if kind == "hist":
         last = None
         for (name, ci, mi) in w["seq"]:
@@ -604,6 +657,13 @@ def judge_fresh(repo, w):
         rb = _run_child(repo, {"op": "eval", "w": w2}, seed=str(w["seed"]))
         r, a, b = ra, ra["a"], rb["a"]
         how = "PYTHONHASHSEED=%s vs 0" % w["seed"]
+    elif kind == "histstate":
+        r = _run_child(repo, {"op": "eval", "w": w})
+        if r["a"] == r["b"]:
+            return None
+        return (th(r["a"]) + th(r["b"]),
+                "decompiling %s left interpreter-global state changed for everything decompiled later in the process: "
+                "%s %s -> %s" % (w["seq"], w["which"], r["a"], r["b"]))
     elif kind == "hist":
         ra = _run_child(repo, {"op": "eval", "w": dict(w, seq=w["seq"][-1:])})
         rb = _run_child(repo, {"op": "eval", "w": w})
@@ -637,8 +697,7 @@ def _hist_load(repo, name):
     if name not in _HCACHE:
         from androguard.core import dex
         from androguard.core.analysis.analysis import Analysis
-        with open(os.path.join(repo, "tests", "data", "APK", name), "rb") as f:
-            d = dex.DEX(f.read())
+        d = dex.DEX(raw_bytes(repo, name))
         _HCACHE[name] = (d, Analysis(d), 0)
     return _HCACHE[name]
 
@@ -687,7 +746,13 @@ def hist_corpus(repo):
                     k += 1
                     if k == 13:
                         break
-    return {"corpus": corpus, "sub": sub}
+    chain = list(range(len(corpus)))
+    d, dx, _ = _hist_load(repo, XT)
+    extreme = []
+    for mi, m in enumerate(d.get_classes()[0].get_methods()):
+        extreme.append(len(corpus))
+        corpus.append([XT, 0, mi, mid(d.get_classes()[0], mi, m), "extreme"])
+    return {"corpus": corpus, "sub": sub, "chain": chain, "extreme": extreme, "ord3": sub[0::5][:3]}
 
 
 def _canon(x, depth=0, seen=None):
@@ -741,28 +806,52 @@ def _fresh(repo, names):
     from androguard.core.analysis.analysis import Analysis
     out = {}
     for name in names:
-        with open(os.path.join(repo, "tests", "data", "APK", name), "rb") as f:
-            d = dex.DEX(f.read())
+        d = dex.DEX(raw_bytes(repo, name))
         out[name] = (d, Analysis(d))
     return out
 
 
+def interp_state():
+    """interpreter-global state a decompilation could leave changed (and that can change later output)"""
+    import gc
+    import locale
+    import warnings
+    env = hashlib.blake2b(repr(sorted(os.environ.items())).encode("utf-8", "replace"), digest_size=8).hexdigest()
+    return {"recursionlimit": sys.getrecursionlimit(), "switchinterval": sys.getswitchinterval(),
+            "warnings.filters": len(warnings.filters), "gc.enabled": gc.isenabled(),
+            "locale": list(locale.getlocale()), "cwd": os.getcwd(), "environ": env}
+
+
+def _state_diff(s0, s1):
+    return {k: [s0[k], s1[k]] for k in sorted(s0) if s0[k] != s1[k]}
+
+
 def hist_server(repo, corpus, seqs):
     """One process, nothing decompiled before.  Every history `seq` (indices into corpus) runs on freshly parsed
-    DEX + fresh Analysis objects.  -> [{"h": [text hash per step], "g": global-state fingerprint after}]"""
+    DEX + fresh Analysis objects.  -> [{"h": [text hash per step], "g": decompiler global-state fingerprint after,
+    "i": None | [first step after which the interpreter-global state differed from pristine, {which: [before, after]}]}]
+    (a changed interpreter state is put back before the next history, so that histories stay independent)"""
     install()
     g0 = global_fingerprint()
+    i0 = interp_state()
     out = []
     for seq in seqs:
         objs = _fresh(repo, sorted({corpus[i][0] for i in seq}))
-        res = []
-        for i in seq:
+        res, ichg = [], None
+        for pos, i in enumerate(seq):
             name, ci, mi = corpus[i][:3]
             d, dx = objs[name]
             res.append(th(run_method(dx, d.get_classes()[ci].get_methods()[mi])))
-        out.append({"h": res, "g": global_fingerprint()})
+            if ichg is None:
+                df = _state_diff(i0, interp_state())
+                if df:
+                    ichg = [pos, df]
+        out.append({"h": res, "g": global_fingerprint(), "i": ichg})
         del objs
-    return {"g0": g0, "r": out}
+        if ichg is not None:
+            sys.setrecursionlimit(i0["recursionlimit"])
+            sys.setswitchinterval(i0["switchinterval"])
+    return {"g0": g0, "i0": i0, "r": out}
 
 
 _HC = {}
@@ -796,7 +885,7 @@ def seeds(ctx):
 
 def space(ctx):
     hc = _hcorpus(ctx.repo)
-    n, s = len(hc["corpus"]), len(hc["sub"])
+    n, s = len(hc["chain"]), len(hc["sub"])
     sizes = all_sizes(ctx.repo)
     return {
         "dex_files": DEXES,
@@ -814,6 +903,9 @@ def space(ctx):
         "history_pairs_exact_fresh_objects_per_pair": (n * n) if ctx.thorough else
         "all ordered pairs of the %d small-file methods" % len([x for x in hc["corpus"] if x[4] == "small"]),
         "history_triples_exact": (s * (s - 1) * (s - 2)) if ctx.thorough else 0,
+        "history_extreme_size_methods": {"methods": [x[0] for x in EXTREME], "histories": len(extreme_histories(hc)),
+                                         "shape": "all ordered pairs of the 4 + each before/after 3 ordinary methods"},
+        "interpreter_state_fingerprint": sorted(interp_state()),
         "hash_domain": "injective maps creation-index -> [0, 2^24)",
     }
 
@@ -842,7 +934,9 @@ def shards(ctx):
         for lo, hi in slices(sizes[name], G_SLICE):
             out.append(("G", name, lo, hi))
     hc = _hcorpus(ctx.repo)
-    n = len(hc["corpus"])
+    for k in range(8):
+        out.append(("HE", k, 8))                             # extreme-size methods: exact histories
+    n = len(hc["chain"])
     for a in range(0, n, 4):
         out.append(("H", a, min(a + 4, n)))                  # chains: A B1 A B2 ... on objects fresh per A
     small = [i for i, x in enumerate(hc["corpus"]) if x[4] == "small"]
@@ -891,6 +985,8 @@ def run_shard(ctx, shard):
         _run_HX(ctx, acc, cands, shard[1], shard[2])
     elif kind == "H3":
         _run_H3(ctx, acc, cands, shard[1])
+    elif kind == "HE":
+        _run_HE(ctx, acc, cands, shard[1], shard[2])
     _flush(acc, cands)
     return acc
 
@@ -1055,6 +1151,23 @@ def _hist_run(ctx, acc, cands, seqs, kind):
         acc.state(("global-state", r["g"]))
         if r["g"] != out["g0"]:
             acc.count("histories_that_changed_decompiler_global_state")
+        if r.get("i"):
+            pos, df = r["i"]
+            acc.count("histories_that_changed_interpreter_global_state")
+            for which in df:
+                # minimise: the method after which it changed alone, else the prefix; judged in fresh processes
+                w = j = None
+                for cand in ([seq[pos]], seq[:pos + 1]):
+                    w = {"kind": "histstate", "which": which, "seq": [c3[i] for i in cand]}
+                    j = judge_fresh(ctx.repo, w)
+                    if j:
+                        break
+                if j:
+                    cands.setdefault("history:global-state:%s" % which, []).append(
+                        (len(w["seq"]), corpus[seq[pos]][3], w, "after %s: %s" % (corpus[seq[pos]][3], j[1])))
+                else:
+                    acc.harness_error("interpreter state change %r after %r did not reproduce in a fresh process"
+                                      % (df, seq[:pos + 1]))
         reported = set()
         if r["h"][0] != alone[seq[0]]:
             acc.harness_error("text of %s decompiled alone differs between two fresh processes" % corpus[seq[0]][3])
@@ -1085,7 +1198,7 @@ def _hist_run(ctx, acc, cands, seqs, kind):
 
 def _run_H(ctx, acc, cands, a0, a1):
     hc = _hcorpus(ctx.repo)
-    n = len(hc["corpus"])
+    n = len(hc["chain"])
     seqs = []
     for a in range(a0, a1):
         chain = []
@@ -1101,6 +1214,18 @@ def _run_H(ctx, acc, cands, a0, a1):
 def _run_HX(ctx, acc, cands, As, Bs):
     seqs = [[a, b] for a in As for b in Bs]
     _hist_run(ctx, acc, cands, seqs, "history_pairs_exact")
+
+
+def extreme_histories(hc):
+    """every ordered pair over the four extreme methods (incl. twice the same) + each of them before and after each
+    of three ordinary corpus methods (a switch, a try/catch, a loop method of classes.dex)"""
+    X, O = hc["extreme"], hc["ord3"]
+    return [[a, b] for a in X for b in X] + [[x, o] for x in X for o in O] + [[o, x] for x in X for o in O]
+
+
+def _run_HE(ctx, acc, cands, k, nk):
+    seqs = extreme_histories(_hcorpus(ctx.repo))[k::nk]
+    _hist_run(ctx, acc, cands, seqs, "history_extreme_size_exact")
 
 
 def _run_H3(ctx, acc, cands, a):
@@ -1138,7 +1263,7 @@ def finalize(ctx, acc):
     e["deviation_bound"] = 2 if ctx.thorough else 1
     if e.get("methods_with_hashed_objects", 0) < 100:
         acc.harness_error("degenerate: only %d methods hash >= 2 owned objects" % e.get("methods_with_hashed_objects", 0))
-    if e.get("transpositions", 0) < 1000 or e.get("hashseed_runs", 0) < 7 or e.get("history_pairs_adjacent_in_chain", 0) < 2500 or e.get("history_pairs_exact", 0) < 400:
+    if e.get("transpositions", 0) < 1000 or e.get("hashseed_runs", 0) < 7 or e.get("history_pairs_adjacent_in_chain", 0) < 2500 or e.get("history_pairs_exact", 0) < 400 or e.get("history_extreme_size_exact", 0) < 40:
         acc.harness_error("degenerate space: %r" % (e,))
     if e.get("generated_methods", 0) != len(gen_programs()):
         acc.harness_error("generated corpus not (fully) explored: %r of %d" % (e.get("generated_methods"), len(gen_programs())))
